@@ -2,5 +2,9 @@ import TinkVerif.Props.C18Class
 /-! Report evaluated by ./check: regenerated mutation facts outside the allow-list. -/
 open TinkVerif.Gen.MutFacts
 def showFact (f : Fact) : String := s!"{f.pkg} {f.fn} {f.kind} {f.what}"
-#eval IO.println s!"NOTE: mutation facts={facts.length} scanned-packages={packagesScanned} allowed-owners={allowedOwners.length} allowed-globals={allowedGlobals.length} allowed-field-facts={allowedFieldFacts.length} pool-variables={pools.length}"
-#eval (unexpected.map showFact).forM fun l => IO.println ("UNEXPECTED: mutation-fact " ++ l)
+def showFactInfo (f : Fact) : String := if f.info == "" then showFact f else s!"{showFact f}  [{f.info}]"
+#eval IO.println s!"NOTE: mutation facts={facts.length} scanned-packages={packagesScanned} functions={functionsScanned} entry-points={entryPoints} resolved-call-sites={resolvedCallSites} allowed-owners={allowedOwners.length} allowed-globals={allowedGlobals.length} allowed-field-facts={allowedFieldFacts.length} pool-variables={pools.length}"
+#eval (unexpected.map showFactInfo).forM fun l => IO.println ("UNEXPECTED: mutation-fact " ++ l)
+#eval (staleOwners.map fun (pkg, o, _) => s!"{pkg} {o}").forM fun l => IO.println ("NOTE: stale owner allowance " ++ l)
+#eval (staleGlobals.map fun (pkg, o, _) => s!"{pkg} {o}").forM fun l => IO.println ("NOTE: stale global allowance " ++ l)
+#eval (staleFieldFacts.map fun (pkg, fn, kind, what, _) => s!"{pkg} {fn} {kind} {what}").forM fun l => IO.println ("NOTE: stale field-fact allowance " ++ l)
